@@ -31,6 +31,8 @@ class TreeGen:
         self.files = []
         self.pg = gen.ProgGen(rnd, info)
         self.pg.labels = []
+        self.cross_defs = True
+        self.cross_consts = []
 
     # -- expression helpers (emit split and reference text together) --------------------------------
     def ref16(self, ctx):
@@ -50,6 +52,14 @@ class TreeGen:
         return v, v
 
     def body_line(self, ctx):
+        s, r = self._body_line(ctx)
+        if self.rnd.random() < 0.08:
+            # comments of very different lengths (listing column widths depend on the widest one)
+            cm = ' ; ' + ' '.join(['note'] * self.rnd.choice([1, 8, 20, 30]))
+            s, r = s + cm, r + cm
+        return s, r
+
+    def _body_line(self, ctx):
         rnd = self.rnd
         c = rnd.randrange(7)
         if c == 0:
@@ -63,6 +73,9 @@ class TreeGen:
             return s, s
         if c == 3:
             s = f'  .fill {rnd.randrange(1, 5)}, {rnd.randrange(0, 256)}'
+            return s, s
+        if c == 4 and self.cross_defs:
+            s = '  .byte ' + rnd.choice(['SYM0', 'KG0', 'SYM0 + 1', 'LSB(KG0 + SYM0)'])
             return s, s
         s = '  ' + self.pg.statement()
         return s, s
@@ -89,6 +102,16 @@ class TreeGen:
         else:
             my_globals = [self.globals_free.pop() for _ in range(min(n_glob, len(self.globals_free)))]
             self.file_globals[idx] = my_globals
+        # definitions that must cross file boundaries as if the text were pasted: a symbol and a constant defined at
+        # the top of main are used by every file; every reachable included file contributes a global constant
+        if is_main:
+            v0, k0 = rnd.randrange(1, 200), rnd.randrange(1, 200)
+            items.append({'t': 'line', 's': f'#define SYM0 {v0}', 'r': f'#define SYM0 {v0}'})
+            items.append({'t': 'line', 's': f'KG0 = {k0}', 'r': f'KG0 = {k0}'})
+        elif not private:
+            kv = rnd.randrange(1, 200)
+            items.append({'t': 'line', 's': f'KG{idx} = {kv}', 'r': f'KG{idx} = {kv}'})
+            self.cross_consts.append(f'KG{idx}')
         # a few lines before any label (no local labels possible here)
         for _ in range(rnd.randrange(0, 3)):
             s, r = self.body_line({'locals': {}, 'filelabs': ctx['filelabs']})
@@ -129,6 +152,7 @@ class TreeGen:
         for attempt in range(20):
             self.broken = False
             self.file_globals = {}
+            self.cross_consts = []
             saved_free = list(self.globals_free)
             n = self.n_files
             # plan global label names first so every file may reference every global label
@@ -155,7 +179,8 @@ class TreeGen:
             for i in range(1, n):
                 cands = [j for j in range(0, i) if not private[j]]
                 parent = files[rnd.choice(cands)] if rnd.random() < 0.5 else files[0]
-                pos = rnd.randrange(0, len(parent['items']) + 1)
+                lo = 2 if parent is files[0] else 0      # after main's leading definitions (see make_file)
+                pos = rnd.randrange(lo, len(parent['items']) + 1)
                 wrap = wraps[i]
                 seq = [{'t': 'inc', 'file': files[i]}]
 
@@ -181,8 +206,12 @@ class TreeGen:
                     elif leak == 3:
                         files[i]['items'].append(ln('#mute'))
                         seq += [ln('  .byte $5A'), ln('#unmute'), ln('  .byte $5B')]
-                elif wrap < 0.27:
+                elif wrap < 0.21:
                     seq = [ln('#mute')] + seq + [ln(rnd.choice(['#unmute', '#emit']))]
+                elif wrap < 0.27:
+                    # include at mute depth >= 2; bytes between the two #unmute lines must stay muted
+                    seq = [ln('#mute'), ln('  .byte $B1'), ln('#mute')] + seq + [
+                        ln('#unmute'), ln('  .byte $B2'), ln('#unmute'), ln('  .byte $B3')]
                 elif wrap < 0.33:
                     # the included file changes the mute state for what follows in the includer
                     files[i]['items'].append(ln('#mute'))
@@ -190,6 +219,18 @@ class TreeGen:
                 elif wrap < 0.38:
                     files[i]['items'].insert(0, ln('#unmute'))
                     seq = [ln('#mute')] + seq
+                if rnd.random() < 0.25:
+                    # zero-length byte directives right at the file boundaries (their address ties with neighbours)
+                    z = lambda: ln(rnd.choice(['  .zero 0', '  .fill 0, 1', '  .zerountil 0', '  .byte ""']))
+                    where = rnd.randrange(4)
+                    if where == 0:
+                        seq = [z()] + seq
+                    elif where == 1:
+                        seq = seq + [z()]
+                    elif where == 2:
+                        files[i]['items'].append(z())
+                    else:
+                        files[i]['items'].insert(0, z())
                 parent['items'][pos:pos] = seq
             self._annotate_zones(files[0])
             self.files = files
